@@ -45,3 +45,12 @@ func init() {
 	verifHarnesses["VerifSmokeParse"] = VerifSmokeParse
 	verifHarnesses["VerifSmokeConcrete"] = VerifSmokeConcrete
 }
+
+// VerifSmokePicks: 3 x 4 concrete choices = 12 paths.
+func VerifSmokePicks() {
+	a := vnd.Pick(3)
+	b := vnd.Pick(4)
+	vnd.ObserveInt("ab", a*10+b)
+}
+
+func init() { verifHarnesses["VerifSmokePicks"] = VerifSmokePicks }
